@@ -157,6 +157,10 @@ fn pow(span: Span<u32>, base: Numeric, pow: Numeric) -> Result<Numeric> {
     }
 
     if base.value.is_zero() {
+        if pow.value.numer().sign() == Sign::Minus {
+            return Err(Error::new(span, DivideByZero));
+        }
+
         return Ok(Numeric::new(base.value, base.unit));
     }
 
